@@ -62,16 +62,33 @@ TRANSIENT_4XX_ERROR_CODES = frozenset({
     "SlowDown",
     "OperationAborted",
     "ConditionalRequestConflict",
+    # body damaged in transit: the next attempt sends / receives it again
+    "BadDigest",
+    "IncompleteBody",
+    "XAmzContentSHA256Mismatch",
+    "KMS.ThrottlingException",
 })
 
-# SDK-side failures that may go away on retry: transport trouble. Every other
-# BotoCoreError (no credentials, parameter validation, bad region, ...) is
-# raised before anything is sent and will be raised again, identically.
-_TRANSIENT_SDK_ERROR_NAMES = frozenset({
-    "HTTPClientError",
-    "ConnectionError",
-    "IncompleteReadError",
-    "ChecksumError",
+# SDK-side failures that will be raised again, identically, on every attempt
+# (nothing was sent, or nothing can be). Every OTHER BotoCoreError stays
+# retryable: transport trouble, checksum mismatches of a response, a hiccup of
+# the credential / instance-metadata endpoint during a refresh, and whatever
+# future SDK versions add.
+_PERMANENT_SDK_ERROR_NAMES = frozenset({
+    "NoCredentialsError",
+    "PartialCredentialsError",
+    "ParamValidationError",
+    "ValidationError",
+    "UnknownServiceError",
+    "UnknownEndpointError",
+    "NoRegionError",
+    "InvalidRegionError",
+    "ProfileNotFound",
+    "ConfigNotFound",
+    "ConfigParseError",
+    "UnsupportedSignatureVersionError",
+    "InvalidEndpointConfigurationError",
+    "InvalidS3AddressingStyleError",
 })
 
 
@@ -81,9 +98,10 @@ def is_permanent_s3_error(exc: BaseException) -> bool:
     Beyond the explicit code list: any other 4xx answer of the service (expired
     token, invalid request / argument, method not allowed, key too long, ...)
     is the service saying "no" to THIS request - except 404 (kept retryable on
-    purpose, see above), 408 / 429 and the throttling / time-out codes; and
-    SDK errors that are not transport failures. Retrying those six times only
-    made a misconfigured or expired job slower and noisier.
+    purpose, see above), 408 / 429 and the throttling / time-out / damaged-body
+    codes; and the SDK errors that are raised before anything is sent.
+    Retrying those six times only made a misconfigured or expired job slower
+    and noisier.
     """
     response = getattr(exc, "response", None)
     if isinstance(response, dict):
@@ -102,7 +120,7 @@ def is_permanent_s3_error(exc: BaseException) -> bool:
         return False
     if isinstance(exc, BotoCoreError):
         names = {klass.__name__ for klass in type(exc).__mro__}
-        return not (names & _TRANSIENT_SDK_ERROR_NAMES)
+        return bool(names & _PERMANENT_SDK_ERROR_NAMES)
     return False
 
 
